@@ -4,8 +4,8 @@ CONSTANTS
   Fallbacks = {"fb", "none"}
   FbStartStop = {TRUE, FALSE}
   Rules <- RulesMix
-  Events <- EventsB
-  MaxRules = 3
+  Events <- EventsS
+  MaxRules = 2
   MaxStatus = 2
   MaxRuns = 2
   RulesInRun = TRUE
